@@ -166,7 +166,7 @@ class Interp(EngineBase):
             return PyList(list(src.items))
         if isinstance(src, DictObj):
             # list(d) / list(d.keys()): a list of the keys, each once
-            l = fresh_list('keys', 'any')
+            l = fresh_list('keys', getattr(src, 'kcls', None) or 'any')
             x = z3.Int(fresh_name('kx'))
             self.st.assume(z3.ForAll([x], z3.Select(l.cnt, x) == z3.If(z3.Select(src.keys, x), 1, 0)))
             self.st.assume(l.n == src.nk)
